@@ -360,6 +360,17 @@ def oracle_inf(case, o):
         x = unwire(o[name])
         if not (unwire(p["min"][1]) <= x <= unwire(p["max"][1])):
             out.append(("infinite-supply-minmax", "%s = %s outside [%s, %s] at supply %s" % (name, o[name], p["min"][1], p["max"][1], case["esupply"])))
+    # when no limit interferes the written value is forwarded, rounded down to the granularity: at supply
+    # +inf with an infinite backlog (or -inf with an infinite surplus) the window imposes nothing on that side
+    mn, mx, g = unwire(p["min"][1]), unwire(p["max"][1]), unwire(p["g"][1])
+    v = unwire(case["v"])
+    fl = (v // g) * g if g != 1 else v
+    lo_free = case["esupply"] == "inf" and unwire(p["backlog"][1]) == INF
+    hi_free = case["esupply"] == "-inf" and unwire(p["surplus"][1]) == INF
+    if (lo_free or hi_free) and mn <= fl <= mx and not out:
+        # supply +inf: upper bound +inf; supply -inf: lower bound -inf - neither interferes
+        if unwire(o["fwd"]) != fl:
+            out.append(("infinite-supply-free", "no limit interferes at supply %s, yet %s was forwarded for a written %s (expected %s)" % (case["esupply"], o["fwd"], case["v"], fl)))
     return out
 
 
